@@ -177,10 +177,12 @@ def run(repo, rep):
               '; '.join(sorted(set(problems))))
 
     # E5 ---------------------------------------------------------------------
-    finals = []
+    finals, blog = [], []
     for name in PRODUCERS:
-        finals.extend(pm.paths(name, raises_of=make_raises(repo, decode_set)))
-    probs = blocking_problems(finals)
+        f_, l_ = pm.paths_and_log(name, raises_of=make_raises(repo, decode_set))
+        finals.extend(f_)
+        blog.extend(l_)
+    probs = blocking_problems(finals, blog)
     rep.check(not probs, 'C12.E5', 'dulprovider:DULServiceProvider:blocking-calls', pm.cls.loc(),
               'every recv/select/queue get on %d producer paths is bounded' % len(finals), '; '.join(probs))
 
